@@ -1,11 +1,12 @@
 (* Props/C20.v — gcsfs stores and returns object data exactly, with virtual folders.
    Models: Model/Gcs.v + GcsFs.v (gcsfs on the object store of overlay/gcsfake.go), specification
    side: Model/ByteFile.v (flat byte array) and Model/GcsSpec.v (class of calls, agreement of results).
-   The theorems about listings / Remove are about the PATCHED code (cfg_patched: D17, D19, D20 of
-   REPORT-c20.md repaired); the _refuted Examples show the same statements failing for today's code. *)
+   The theorems about listings / Remove / RemoveAll are about the PATCHED code (cfg_patched: D17, D19, D20
+   of REPORT-c20.md repaired, = the configuration cfg_src of the current sources, C20_source_configuration);
+   the _refuted Examples show the same statements failing for the code before the repairs. *)
 From Coq Require Import List ZArith.
 From AF Require Import Lib.Bytes Lib.Path Lib.Ops Gen.Consts Model.ByteFile Model.Gcs Model.GcsFs Model.GcsSpec.
-From AF Require Import Proofs.GcsProof Proofs.GcsFolderProof.
+From AF Require Import Proofs.GcsProof Proofs.GcsFolderProof Proofs.GcsRemoveAllProof.
 Local Open Scope Z_scope.
 
 (* Data path.  For EVERY sequence of calls of the property's class (in_class: sequential reads and
@@ -102,22 +103,82 @@ Theorem C20_remove_refused_when_listing_nonempty : forall c bkt g name path info
 Proof. exact remove_nonempty_refused. Qed.
 Print Assumptions C20_remove_refused_when_listing_nonempty.
 
-(* RemoveAll removes the whole subtree and nothing else.
-   FULL STATEMENT (not proved in general):
-     forall g name path, <layout class below path>, enough fuel ->
-       fs_remove_all cfg_patched bkt fuel g name = (g', _) ->
-       g_objs g' = filter (fun kv => negb (beqb (fst kv) path || prefixb (path ++ "/") (fst kv))) (g_objs g).
-   PROVED: the case where the name is an object (RemoveAll = Remove of exactly that object, either code).
-   MISSING: the recursion over a folder (induction over the listing with the heap of opened
-   resources changing in every step).  Covered instead by: the computed instances below (explicit and
-   implicit nested folders), the per-run comparison of the model with the specification machine
-   (Model/GcsSpec.v, RemoveAll = filter) and with the implementation on every generated case. *)
-Theorem C20_removeall_exactly_subtree_partial : forall c bkt fuel g name path (d : bytes),
+(* RemoveAll removes the whole subtree and nothing else — for EVERY store of the layout class, explicit
+   (placeholder object "d/") and implicit folders nested arbitrarily deep, no bound on depth or size.
+
+   The layout class is ONE boolean predicate on the object list (Proofs/GcsRemoveAllProof.v):
+     layout_class objs = the names are pairwise distinct (nodupb),
+                         every name is key_ok: not empty, no empty path segment (no leading "/", no "//";
+                           a single trailing "/" is the placeholder of an explicit folder), no backslash,
+                         and prefix-free: no name k such that k ++ "/" is a prefix of a name
+                           (no name is both a file and a folder; "d/" next to "d/x" is allowed).
+   It is hereditary (layout_class_filter: deleting objects stays in the class; the theorem re-establishes
+   it for the store afterwards).  bucket_ok: the bucket name is not empty and has no "/" or "\";
+   path_ok: the object path is not empty, has no leading or trailing "/" and no "\"; the call is
+   RemoveAll(bucket ++ "/" ++ path).  The path may be an object, a folder, or absent.
+   raw_ok: no name cached in rawGcsObjects (filled by Create) is the name of a folder — otherwise Open
+   reuses that cached resource and Stat commits its pending writer (C20_removeall_needs_raw_ok).
+
+   Fuel (the recursion depth of Fs.RemoveAll; UFuel is excluded by the hypothesis, not by luck):
+     removeall_fuel objs path = 1 + max over the objects k under path ++ "/" of (1 + number of "/" in k
+     after that prefix); the bound is attained (C20_removeall_nested_instance: one less gives UFuel).
+
+   Conclusion: the result is nil; the store afterwards is EXACTLY the filter (everything at or under the
+   name is gone, including the placeholder path ++ "/"; every other entry — name and bytes — is still
+   there, in the same order); the heap of resources only grows, by idle resources (one per Open of a
+   folder, never closed by RemoveAll: no reader, no writer, offset 0); rawGcsObjects only loses entries:
+   entries of names outside the subtree are unchanged, the entry of every removed object whose name does
+   not end in "/" is dropped (the entry of a placeholder created by Create("b/d/") stays: stale).
+   Proof: induction on the fuel, inner induction over the folder's listing (ra_step / ra_loop). *)
+Theorem C20_removeall_exactly_subtree : forall bkt fuel g path,
+  bucket_ok bkt = true -> path_ok path = true ->
+  layout_class (g_objs g) = true -> raw_ok bkt g = true ->
+  (removeall_fuel (g_objs g) path <= fuel)%nat ->
+  let name := full_name bkt path in
+  exists g' rs,
+    fs_remove_all cfg_patched bkt fuel g name = (g', UOk) /\
+    g_objs g' = filter (fun kv => negb (beqb (fst kv) path || prefixb (path ++ [SLASH]) (fst kv))) (g_objs g) /\
+    g_res g' = g_res g ++ rs /\ Forall (idle_res bkt) rs /\
+    incl (map fst (g_raw g')) (map fst (g_raw g)) /\
+    (forall n, n <> name -> prefixb (name ++ [SLASH]) n = false -> alist_get n (g_raw g') = alist_get n (g_raw g)) /\
+    (forall k, In k (map fst (g_objs g)) -> k = path \/ prefixb (path ++ [SLASH]) k = true ->
+               last_is_slash k = false -> alist_get (full_name bkt k) (g_raw g') = None) /\
+    layout_class (g_objs g') = true /\ raw_ok bkt g' = true.
+Proof. exact removeall_exactly_subtree. Qed.
+Print Assumptions C20_removeall_exactly_subtree.
+
+(* the case "the name is an object", for either code and without any layout hypothesis *)
+Theorem C20_removeall_object : forall c bkt fuel g name path (d : bytes),
   norm_name name = name -> name <> [] -> split_name name = (bkt, path) -> path <> [] ->
   alist_get path (g_objs g) = Some d ->
   exists g', fs_remove_all c bkt (S fuel) g name = (g', UOk) /\ g_objs g' = alist_del path (g_objs g).
 Proof. exact removeall_file. Qed.
-Print Assumptions C20_removeall_exactly_subtree_partial.
+Print Assumptions C20_removeall_object.
+
+(* The same class serves the listing and the Remove theorem: for a folder (some object under path ++ "/")
+   of a store of the class, Readdir(count <= 0) returns the immediate children once each, and Remove of a
+   folder with a child is refused. *)
+Theorem C20_listing_once_each_class : forall bkt (objs : gstore) path k count,
+  bucket_ok bkt = true -> path_ok path = true -> layout_class objs = true ->
+  In k (map fst objs) -> prefixb (path ++ [SLASH]) k = true -> count <= 0 ->
+  let r := mkR (full_name bkt path) bkt path 0 0 None None in
+  exists l, gf_readdir cfg_patched bkt objs r count = (objs, r, LList l None) /\
+            (forall c, In c (map gi_base l) <-> is_child objs (path ++ [SLASH]) c) /\ NoDup (map gi_base l).
+Proof. exact listing_once_each_class. Qed.
+Print Assumptions C20_listing_once_each_class.
+
+Theorem C20_remove_nonempty_refused_class : forall bkt g path c,
+  bucket_ok bkt = true -> path_ok path = true -> layout_class (g_objs g) = true ->
+  is_child (g_objs g) (path ++ [SLASH]) c ->
+  exists g', fs_remove cfg_patched bkt g (full_name bkt path) = (g', UErr GENOTEMPTY) /\ g_objs g' = g_objs g.
+Proof. exact remove_nonempty_refused_class. Qed.
+Print Assumptions C20_remove_nonempty_refused_class.
+
+(* the class is hereditary: the steps of the recursion (deletions) stay inside *)
+Theorem C20_layout_class_hereditary : forall (objs : gstore) f,
+  layout_class objs = true -> layout_class (filter f objs) = true.
+Proof. exact layout_class_filter. Qed.
+Print Assumptions C20_layout_class_hereditary.
 
 (* ------------------------------------------------------------------ non-vacuity, computed instances *)
 Definition B : str := [98]%N.                        (* bucket "b" *)
@@ -218,3 +279,58 @@ Example C20_removeall_refuted_today_d20 :
   let '(g', u) := fs_remove_all cfg_today B 8 (mkG S3 [] []) name_d in
   u = UErr GENOENT /\ g_objs g' = [([100;47;103]%N, [4]%N); ([104]%N, [3]%N)].
 Proof. vm_compute. split; reflexivity. Qed.
+
+(* ------------------------------------------------------------------ the layout class, computed *)
+(* explicit folder d/ with a child named like the folder (d/d), an implicit folder d/e holding a file and
+   an explicit folder d/e/g/ with a file, the look-alike siblings d.txt and dd next to d/, and h *)
+Definition S5 : gstore :=
+  [([100;47]%N, []); ([100;47;100]%N, [1]%N); ([100;47;101;47;102]%N, [2]%N); ([100;47;101;47;103;47]%N, []);
+   ([100;47;101;47;103;47;120]%N, [5]%N);
+   ([100;46;116;120;116]%N, [6]%N); ([100;100]%N, [7]%N); ([104]%N, [3]%N)].
+Example C20_layout_class_nonvacuous :
+  layout_class S5 = true /\ bucket_ok B = true /\ path_ok n_d = true /\ raw_ok B (mkG S5 [] []) = true /\
+  full_name B n_d = name_d /\ removeall_fuel S5 n_d = 4%nat.
+Proof. vm_compute. repeat split; reflexivity. Qed.
+
+(* RemoveAll(b/d) on it with the fuel of the bound: exactly d.txt, dd and h stay; with one unit less the
+   recursion runs out of fuel, so the bound is attained *)
+Example C20_removeall_nested_instance :
+  (let '(g', u) := fs_remove_all cfg_patched B 4 (mkG S5 [] []) name_d in
+   u = UOk /\ g_objs g' = [([100;46;116;120;116]%N, [6]%N); ([100;100]%N, [7]%N); ([104]%N, [3]%N)]) /\
+  snd (fs_remove_all cfg_patched B 3 (mkG S5 [] []) name_d) = UFuel.
+Proof. vm_compute. repeat split; reflexivity. Qed.
+
+(* OUTSIDE the class, and necessarily so: an object with a backslash in its name (d/a\b).  gcsfs turns
+   "\" into "/" in every name it is given and in the names it lists, so RemoveAll(b/d) asks for b/d/a/b,
+   finds nothing, and the final Remove refuses the still non-empty folder: ENOTEMPTY, the object stays.
+   (All other conditions of the class hold for the witness.  Replayed against the implementation:
+   corpus/C20/removeall-backslash.case, implementation = model.) *)
+Definition S6 : gstore := [([100;47;97;92;98]%N, [1]%N); ([104]%N, [3]%N)].
+Example C20_removeall_backslash_refuted :
+  exists objs path,
+    nodupb (map fst objs) = true /\ prefix_free (map fst objs) = true /\
+    forallb (fun k => negb (is_empty k) && negb (prefixb s_slash k) && negb (infixb s_2slash k)) (map fst objs) = true /\
+    layout_class objs = false /\ path_ok path = true /\ raw_ok B (mkG objs [] []) = true /\
+    let '(g', u) := fs_remove_all cfg_patched B 8 (mkG objs [] []) (full_name B path) in
+    u = UErr GENOTEMPTY /\ g_objs g' = objs.
+Proof. exists S6, n_d. vm_compute. repeat split; reflexivity. Qed.
+
+(* raw_ok is needed: with a cached resource under the folder's own name that still has a pending writer
+   (possible only if the object b/d was deleted behind the Fs's back), Open reuses it, Stat commits the
+   writer — the object d appears — and RemoveAll stops with ENOTDIR *)
+Example C20_removeall_needs_raw_ok :
+  let g := mkG [([100;47;102]%N, [1]%N)] [mkR name_d B n_d 0 0 None (Some [9]%N)] [(name_d, O)] in
+  layout_class (g_objs g) = true /\ raw_ok B g = false /\
+  let '(g', u) := fs_remove_all cfg_patched B 8 g name_d in
+  u = UErr GENOTDIR /\ g_objs g' = [([100;47;102]%N, [1]%N); ([100]%N, [9]%N)].
+Proof. vm_compute. repeat split; reflexivity. Qed.
+
+(* the cache entry of a placeholder object created through Create("b/d/") survives RemoveAll("b/d") *)
+Example C20_removeall_stale_placeholder_entry :
+  let g := mkG [([100;47]%N, []); ([100;47;102]%N, [1]%N)]
+               [mkR [98;47;100;47]%N B [100;47]%N 0 0 None None; mkR [98;47;100;47;102]%N B [100;47;102]%N 0 0 None None]
+               [([98;47;100;47]%N, O); ([98;47;100;47;102]%N, 1%nat)] in
+  raw_ok B g = true /\
+  let '(g', u) := fs_remove_all cfg_patched B 8 g name_d in
+  u = UOk /\ g_objs g' = [] /\ g_raw g' = [([98;47;100;47]%N, O)].
+Proof. vm_compute. repeat split; reflexivity. Qed.
